@@ -166,6 +166,8 @@ fn get_best_move_score(
     killer_moves: &mut [Option<Move>],
     history: &mut [u16; 64 * 12],
 ) -> Option<Score> {
+    #[cfg(daniel729_chess_verif)]
+    crate::verif_hooks::on_poll(continue_running, table);
     if !continue_running.load(Relaxed) {
         // Halt the search early
         return None;
